@@ -5,7 +5,7 @@ sys.path.insert(0, os.path.dirname(os.path.dirname(os.path.abspath(__file__))))
 import coqreplay as _coqreplay
 
 PROP = {
-    "coq": ["C03", "C03s"],
+    "coq": ["C03", "C03s", "C03t"],
     "pre": [regen_src],
     "extra": [_coqreplay.replay_srv],
     "exhaustive": False,
